@@ -1,0 +1,53 @@
+//go:build verif
+
+package traversal
+
+// Contracts for govc (see /verif/DESIGN.md §5 C15, C14). Comment-only; compiled
+// only under the build tag "verif".
+
+// User callbacks are assumed not to modify the traversal's own state (budget, seen-link set).
+//@ functype AdvVisitFn(prog, n, reason) (err)
+//@   assigns nothing
+//@ functype VisitFn(prog, n) (err)
+//@   assigns nothing
+//@ functype LinkTargetNodePrototypeChooser(lnk, lnkCtx) (np, err)
+//@   assigns nothing
+
+// ---- budgets: check-and-decrement, exactly once per step ----
+
+//@ func (Progress).checkNodeBudget() (err)
+//@   assigns prog.Budget.NodeBudget
+//@   ensures[C15] prog.Budget == nil ==> err == nil
+//@   ensures[C15] prog.Budget != nil && old(prog.Budget.NodeBudget) <= 0 ==> iserr(err, "*ErrBudgetExceeded") && prog.Budget.NodeBudget == old(prog.Budget.NodeBudget)
+//@   ensures[C15] prog.Budget != nil && old(prog.Budget.NodeBudget) <= 0 ==> unbox(err, "*ErrBudgetExceeded").BudgetKind == "node" && unbox(err, "*ErrBudgetExceeded").Path == prog.Path
+//@   ensures[C15] prog.Budget != nil && old(prog.Budget.NodeBudget) > 0 ==> err == nil && prog.Budget.NodeBudget == old(prog.Budget.NodeBudget) - 1
+
+//@ func (Progress).checkLinkBudget(lnk) (err)
+//@   assigns prog.Budget.LinkBudget
+//@   ensures[C15] prog.Budget == nil ==> err == nil
+//@   ensures[C15] prog.Budget != nil && old(prog.Budget.LinkBudget) <= 0 ==> iserr(err, "*ErrBudgetExceeded") && prog.Budget.LinkBudget == old(prog.Budget.LinkBudget)
+//@   ensures[C15] prog.Budget != nil && old(prog.Budget.LinkBudget) <= 0 ==> unbox(err, "*ErrBudgetExceeded").BudgetKind == "link" && unbox(err, "*ErrBudgetExceeded").Path == prog.Path && unbox(err, "*ErrBudgetExceeded").Link == lnk
+//@   ensures[C15] prog.Budget != nil && old(prog.Budget.LinkBudget) > 0 ==> err == nil && prog.Budget.LinkBudget == old(prog.Budget.LinkBudget) - 1
+
+//@ func (*Budget).Clone() (r)
+//@   assigns nothing
+//@   ensures[C15] b == nil ==> r == nil
+//@   ensures[C15] b != nil ==> fresh(r) && r.NodeBudget == b.NodeBudget && r.LinkBudget == b.LinkBudget
+
+// ---- visit: the callback is suppressed before the start path, gets the (possibly sliced) match ----
+
+//@ func (Progress).visit(ph, n, s, visitFn) (err)
+//@   requires prog.Cfg != nil && s != nil && visitFn != nil
+//@   assigns nothing
+//@   before visitFn assert[C15] ph == phaseTraverse && (prog.PastStartAtPath || len(prog.Path.segments) >= len(prog.Cfg.StartAtPath.segments))
+//@   before visitFn assert[C07] carg0 == prog && ((carg2 == VisitReason_SelectionMatch && carg1 != nil) || (carg2 == VisitReason_SelectionCandidate && carg1 == n))
+//@   ensures[C15] ph != phaseTraverse ==> err == nil
+
+// ---- loadLink: exactly one link-budget check, before the load ----
+
+//@ func (Progress).loadLink(lnk, v, parent) (r, err)
+//@   requires prog.Cfg != nil && prog.Cfg.LinkTargetNodePrototypeChooser != nil
+//@   before LinkTargetNodePrototypeChooser assert[C15] prog.Budget != nil ==> old(prog.Budget.LinkBudget) > 0 && prog.Budget.LinkBudget == old(prog.Budget.LinkBudget) - 1
+//@   before Load assert[C15] prog.Budget != nil ==> old(prog.Budget.LinkBudget) > 0 && prog.Budget.LinkBudget == old(prog.Budget.LinkBudget) - 1
+//@   before Load assert[C07] carg2 == lnk
+//@   ensures[C15] prog.Budget != nil && old(prog.Budget.LinkBudget) <= 0 ==> r == nil && iserr(err, "*ErrBudgetExceeded") && prog.Budget.LinkBudget == old(prog.Budget.LinkBudget)
